@@ -177,7 +177,7 @@ theorem entity_is_binding {proj : Project} {rank : List Nat} (wf : WFacts proj r
 /-- one step of a dotted name: the binding of `y` in scope `S` itself, or — for an attribute of a
 class (not the first component) — in the body of SOME class (over-approximation of the MRO walk) -/
 def Step (proj : Project) (f : Bool) (S : Site) (y : Name) (w : SVal) : Prop :=
-  Jpy proj S [y] w ∨ (f = false ∧ S.2 ≠ [] ∧ ∃ A : Site, A.2 ≠ [] ∧ Jpy proj A [y] w)
+  Jpy proj S [y] w ∨ (f = false ∧ IsClassSite proj S ∧ ∃ A : Site, A.2 ≠ [] ∧ Jpy proj A [y] w)
 
 /-- `Jpy` with inherited attribute steps -/
 inductive JpyI (proj : Project) : Bool → Site → List Name → SVal → Prop
@@ -195,7 +195,7 @@ theorem Step.ofMod {proj : Project} {f g : Bool} {S : Site} (hS : S.2 = []) {y :
     (h : Step proj f S y w) : Step proj g S y w := by
   rcases h with h | ⟨_, h, _⟩
   · exact Or.inl h
-  · exact absurd hS h
+  · exact absurd hS h.ne
 
 theorem JpyI.one_inv {proj : Project} {f : Bool} {S : Site} {y : Name} {v : SVal} (h : JpyI proj f S [y] v) :
     Step proj f S y v := by
@@ -244,7 +244,7 @@ theorem step_fun {proj : Project} {rank : List Nat} (wf : WFacts proj rank) (ciu
     {y : Name} {v w : SVal} (h1 : Jpy proj S [y] v) (h2 : Step proj f S y w) : v = w := by
   rcases h2 with h2 | ⟨_, hS, A, hA, h2⟩
   · exact jpy_fun wf h1 h2
-  · exact class_bind_same wf ciu hS hA h1 h2
+  · exact class_bind_same wf ciu hS.ne hA h1 h2
 
 /-- **functionality**: what the derivation with inherited steps gives for a name that the plain
 derivation binds is the same value -/
@@ -331,7 +331,7 @@ theorem getAttr_jI {proj : Project} {s : PyImp.St} (hI : PyInv proj s) {v0 v1 : 
         | some cb =>
           simp only [hcb] at hb
           obtain ⟨sv1, h1, h2⟩ := hI.heap b cb hcb y v1 hb
-          exact ⟨sv1, h1, Or.inr ⟨rfl, hI.cls hh co hc, (cb.mod, cb.cp), hI.cls b cb hcb, h2⟩⟩
+          exact ⟨sv1, h1, Or.inr ⟨rfl, hI.cls hh co hc, (cb.mod, cb.cp), (hI.cls b cb hcb).ne, h2⟩⟩
 
 theorem getAttrs_jI {proj : Project} {s : PyImp.St} (hI : PyInv proj s) :
     ∀ (ys : List Name) (v0 v : Val) (sv0 : SVal), svalV s v0 = some sv0 → getAttrs s v0 ys = some v → ys ≠ [] →
